@@ -96,6 +96,11 @@ CLAIMED = {
          "Generated-input search: 40k histories (about 500k statements) quick / 1.5M histories thorough; after every statement: statement validity agrees with the model, list_tables / catalog schema / stored schema / stored rows / SELECT * / SELECT <declared columns> / list_indexes / index-driven probes all equal the model.",
          "RENAME TABLE, MODIFY COLUMN and dropping/renaming a column used by an index or constraint are outside the generated domain (the statement does not define their outcome); unquoted identifiers only.",
          "DESIGN.md §6 C33"),
+ "C34": ("exploration",
+         "model-based testing of trigger firing: generated trigger sets (BEFORE/AFTER x INSERT/UPDATE/UPDATE OF/DELETE x ROW/STATEMENT x WHEN) whose bodies write OLD/NEW images to an audit table or fail for rows with a NULL; the audit multiset after every generated DML statement is compared with a model of the firings",
+         "Generated-input search: 600k histories (about 2.6M statements) quick / 15M thorough with single/multi-row INSERT, UPDATE and DELETE matching zero, one or many rows; exactly one audit row per (matching trigger x affected row whose WHEN holds) with that row's images, one per matching statement trigger (also for zero rows), and a failing body must fail the statement with the table unchanged.",
+         "Triggers are created through the AST (TriggerAction::RawSql) as the repository's tests do; firing order is not compared; UPDATE OF on an assigned-but-unchanged column may or may not fire.",
+         "DESIGN.md §6 C34"),
  "C15": ("exploration",
          "invariant testing of index structures: after every statement of a generated history the PK hash index, UNIQUE hash indexes and every user index map are compared with a rebuild from scratch on a clone",
          "Generated-input search: 250k histories quick / 6M thorough with position-shifting deletes, updates of indexed/key columns, DELETE-all/TRUNCATE, INSERT..SELECT; uses only public APIs (primary_key_index, unique_indexes, get_index_data, rebuild_indexes).",
